@@ -293,4 +293,8 @@ def run(ctx):
     from rules import c09 as _c09
     _c09.rule_seek_targets(ctx, R="C07/destination/seek-targets")
     _c09.rule_save_restore(ctx, R="C07/destination/save-restore")
+    # a stack descriptor that names a position is followed, on every path to a success return, by the append of exactly those bytes
+    # (same rule instance as C01/pos-append)
+    from rules import c01 as _c01pa
+    _c01pa.rule_pos_append(ctx, R="C07/descriptor-then-bytes")
 
